@@ -342,6 +342,8 @@ impl Sut for GCounter<A> {
                 big.apply(Dot::new(actor, u64::MAX - actor));
             }
             t.call("gcounter.bigread", &[sx(&big), big.read().to_string()]);
+            // counters beyond 2^53 survive the JSON round trip exactly
+            serde_rt("gcounter", &big, t);
             let mut pn = PNCounter::<A>::new();
             for actor in 0..n {
                 pn.apply(pn.inc_many(actor, u64::MAX - 2 * actor));
